@@ -30,7 +30,7 @@ func init() {
 		Level: "exploration",
 		Rule: "each case builds one canonical PDU (reference encoder, message = idx mod number of messages) and decodes it and M hostile variants with ngap.Decoder: " +
 			"every prefix (stride), single-bit flips, byte overwrites with 00/7F/80/FF, length/count saturation (FFFF counts, 0xBFFF / 0xC1..C4 length determinants, extension bits set), " +
-			"splices of two PDUs, uniformly random strings of 0..4096 octets, and amplification (runs of 2..160 fragment markers / FF / BFFF / 80 octets inserted at every position). distinct = hash of the input; non-trivial = input differs from the canonical encoding",
+			"splices of two PDUs, uniformly random strings of 0..4096 octets, amplification (runs of 2..160 fragment markers / FF / BFFF / 80 octets inserted at every position and inside IE values with consistent enclosing lengths) and wide-integer saturation (length octet + value at the edges of 32- and 64-bit arithmetic at every position and behind each of the 256 first octets). distinct = hash of the input; non-trivial = input differs from the canonical encoding",
 		Assumptions: []string{
 			"allocation bound 64 MiB per call (the schema's own worst case is a few 65535-element list headers); inputs up to 4 KiB (fragmentation seeds up to 70 KiB in a separate family)",
 			"a call slower than 3 s is re-run alone; only a second slow run counts",
@@ -261,7 +261,7 @@ func runC14(c *fw.Case) (o fw.Outcome) {
 	if !decodeMonitored(&o, base, "canonical "+m.Name) {
 		return
 	}
-	family := c.Idx / len(ms) % 7
+	family := c.Idx / len(ms) % 8
 	switch family {
 	case 0: // prefixes
 		stride := 1
@@ -399,6 +399,57 @@ func runC14(c *fw.Case) (o fw.Outcome) {
 			}
 		}
 		o.Tag("family:amplification")
+	case 7: // wide-integer saturation: length octet + value at the edges of int32 / int64 / uint64 arithmetic, planted over and
+		// inside every position, and behind every value of the first octet (PDU CHOICE index with and without extension bit)
+		pats := [][]byte{
+			{0x08, 0x7f, 0xff, 0xff, 0xff, 0xff, 0xff, 0xff, 0xff}, {0x08, 0x7f, 0xff, 0xff, 0xff, 0xff, 0xff, 0xff, 0xfc}, {0x08, 0x80, 0, 0, 0, 0, 0, 0, 0},
+			{0x08, 0xff, 0xff, 0xff, 0xff, 0xff, 0xff, 0xff, 0xff}, {0x09, 0x00, 0xff, 0xff, 0xff, 0xff, 0xff, 0xff, 0xff, 0xff}, {0x09, 0x00, 0x80, 0, 0, 0, 0, 0, 0, 0},
+			{0x04, 0x7f, 0xff, 0xff, 0xff}, {0x04, 0x80, 0, 0, 0}, {0x04, 0xff, 0xff, 0xff, 0xff}, {0x05, 0x00, 0xff, 0xff, 0xff, 0xff}, {0x05, 0x00, 0x80, 0, 0, 0},
+			{0x10, 0x7f, 0xff, 0xff, 0xff, 0xff, 0xff, 0xff, 0xff, 0xff, 0xff, 0xff, 0xff, 0xff, 0xff, 0xff, 0xff},
+		}
+		for b0 := 0; b0 < 256; b0++ { // every first octet, then each pattern, then the rest of the message
+			for _, p := range pats {
+				b := append(append([]byte{byte(b0)}, p...), base[minInt(1, len(base)):]...)
+				if !decodeMonitored(&o, b, fmt.Sprintf("first octet %02x followed by %x in %s", b0, p, m.Name)) {
+					return
+				}
+			}
+		}
+		stride := 1
+		if len(base) > 100 {
+			stride = len(base) / 100
+		}
+		for i := r.Intn(stride); i < len(base); i += stride {
+			for _, p := range pats {
+				over := append([]byte(nil), base...)
+				copy(over[i:], p)
+				ins := append(append(append([]byte(nil), base[:i]...), p...), base[i:]...)
+				for _, b := range [][]byte{over, ins} {
+					if len(b) > 4096 {
+						b = b[:4096]
+					}
+					if !decodeMonitored(&o, b, fmt.Sprintf("wide integer %x at %d in %s", p, i, m.Name)) {
+						return
+					}
+				}
+			}
+		}
+		if _, l1Size, ies, ok := ngapIEs(base); ok {
+			for _, ie := range ies {
+				for _, off := range []int{0, ie.valLen / 2, ie.valLen} {
+					for _, p := range pats {
+						for _, repl := range []int{0, len(p)} {
+							if b := insertConsistent(base, l1Size, ie, off, p, repl); b != nil && len(b) <= 4096 {
+								if !decodeMonitored(&o, b, fmt.Sprintf("wide integer %x at offset %d of an IE value, enclosing lengths consistent, in %s", p, off, m.Name)) {
+									return
+								}
+							}
+						}
+					}
+				}
+			}
+		}
+		o.Tag("family:wide-integers")
 	}
 	return
 }
